@@ -18,10 +18,31 @@ use std::pin::Pin;
 use std::rc::Rc;
 use std::task::{Context, Poll, Waker};
 
+/// the drivers' source of choices: pseudo-random, or - in the exhaustive mode - a script that is replayed and then extended with
+/// 0s while every choice point and its number of alternatives is logged, so that the caller can enumerate all choice sequences
 struct Lcg(u64);
+thread_local! {
+    static SCRIPT: RefCell<Option<Vec<u64>>> = const { RefCell::new(None) };
+    static CHOICES: RefCell<Vec<(u64, u64)>> = const { RefCell::new(Vec::new()) };
+}
 impl Lcg {
     fn next(&mut self) -> u64 { self.0 = self.0.wrapping_mul(6364136223846793005).wrapping_add(1442695040888963407); self.0 >> 33 }
-    fn below(&mut self, n: u64) -> u64 { self.next() % n }
+    fn below(&mut self, n: u64) -> u64 {
+        let scripted = SCRIPT.with(|s| s.borrow().is_some());
+        if !scripted { return self.next() % n; }
+        let k = CHOICES.with(|c| c.borrow().len());
+        let v = SCRIPT.with(|s| s.borrow().as_ref().unwrap().get(k).copied().unwrap_or(0)) % n;
+        CHOICES.with(|c| c.borrow_mut().push((v, n)));
+        v
+    }
+}
+/// the next choice sequence in depth-first order after the one just logged, or None when all are done
+fn next_script() -> Option<Vec<u64>> {
+    let mut log = CHOICES.with(|c| std::mem::take(&mut *c.borrow_mut()));
+    while let Some((v, n)) = log.pop() {
+        if v + 1 < n { let mut s: Vec<u64> = log.iter().map(|x| x.0).collect(); s.push(v + 1); return Some(s); }
+    }
+    None
 }
 
 #[derive(Clone, Debug, PartialEq)]
@@ -323,7 +344,57 @@ fn run_case(which: &'static str, c: &Case, seed: u64) -> Result<(), String> {
     Ok(())
 }
 
+/// EXHAUSTIVE mode (still a bounded check): every DAG on up to 4 functions (edges from lower to higher id; the reverse runs
+/// cover the other orientation), every API, both directions, limits None / 1 / 2, and EVERY sequence of driver choices - how many
+/// functions return before the next poll (1..3) and which ones. With access declarations (none / read / write of one type per
+/// function) up to 3 functions. All single-run oracles at every quiescent point.
+fn exhaustive(which: &'static str) {
+    let on = |p: &str| which == p || which == "all";
+    let mut runs_total = 0u64;
+    let mut graphs = 0u64;
+    let max_n: usize = std::env::var("VERIF_EXHAUSTIVE_N").ok().and_then(|s| s.parse().ok()).unwrap_or(4);
+    for n in 0..=max_n {
+        let pairs: Vec<(usize, usize)> = (0..n).flat_map(|i| ((i + 1)..n).map(move |j| (i, j))).collect();
+        let access_combos: u32 = if n <= 3 && (on("C01") || which == "all") { 3u32.pow(n as u32) } else { 1 };
+        for mask in 0..(1u32 << pairs.len()) {
+            let edges: Vec<(usize, usize)> = pairs.iter().enumerate().filter(|(k, _)| mask >> k & 1 == 1).map(|(_, &e)| e).collect();
+            for ac in 0..access_combos {
+                let accs: Vec<Acc> = (0..n).map(|i| match (ac / 3u32.pow(i as u32)) % 3 { 0 => Acc { id: i, reads: vec![], writes: vec![] }, 1 => Acc { id: i, reads: vec![0], writes: vec![] }, _ => Acc { id: i, reads: vec![], writes: vec![0] } }).collect();
+                let c = Case { n, accs, edges: edges.clone(), desc: format!("exhaustive: n={n} edges={edges:?} access code {ac} (base 3 per function: 0 none, 1 reads type 0, 2 writes type 0)") };
+                graphs += 1;
+                for api in [Api::ForEach, Api::TryForEach, Api::Stream] { for reverse in [false, true] { for limit in [None, Some(1usize), Some(2)] {
+                    if api == Api::Stream && limit.is_some() { continue; }
+                    if limit.is_some() && !(on("C10") || on("C04")) { continue; }
+                    SCRIPT.with(|s| *s.borrow_mut() = Some(vec![]));
+                    CHOICES.with(|c| c.borrow_mut().clear());
+                    loop {
+                        let g = build(&c);
+                        let mut rng = Lcg(0);
+                        let mut runs = [new_run(&g, api, reverse, limit, "")];
+                        let r = drive(which, &c, &mut runs, &mut rng, None);
+                        runs_total += 1;
+                        if let Err(e) = r {
+                            let script = CHOICES.with(|c| c.borrow().iter().map(|x| x.0).collect::<Vec<_>>());
+                            println!("VIOLATION {e} [exhaustive mode, driver choices {script:?}]");
+                            std::process::exit(1);
+                        }
+                        drop(runs);
+                        match next_script() { Some(sc) => SCRIPT.with(|s| *s.borrow_mut() = Some(sc)), None => break }
+                    }
+                    SCRIPT.with(|s| *s.borrow_mut() = None);
+                } } }
+            }
+        }
+    }
+    println!("OK c_sched exhaustive: {which} oracles hold on ALL {runs_total} schedules of {graphs} graphs with up to {max_n} functions (bounded: n <= {max_n}, bursts of 1..3 completions per poll)");
+}
+
 fn main() {
+    if std::env::args().any(|a| a == "--exhaustive") {
+        let which: &'static str = match std::env::args().nth(1).as_deref() { Some("C01") => "C01", Some("C02") => "C02", Some("C03") => "C03", Some("C04") => "C04", Some("C06") => "C06", Some("C10") => "C10", _ => "all" };
+        exhaustive(which);
+        return;
+    }
     let which: &'static str = match std::env::args().nth(1).as_deref() { Some("C01") => "C01", Some("C02") => "C02", Some("C03") => "C03", Some("C04") => "C04", Some("C06") => "C06", Some("C10") => "C10", Some("C15") => "C15", Some("C20") => "C20", _ => "all" };
     let seed = std::env::var("VERIF_SEED").ok().and_then(|s| s.parse().ok()).unwrap_or(1u64);
     let mut rng = Lcg(seed.wrapping_mul(2246822519) + 17);
